@@ -57,6 +57,22 @@ func parsePart(path string) []histRec {
 	return recs
 }
 
+// harnessRace: the child died of Go's "concurrent map iteration and map write" with the harness's own reader on the stack
+func harnessRace(stderr string) bool {
+	if !strings.Contains(stderr, "fatal error: concurrent map") {
+		return false
+	}
+	i := strings.Index(stderr, "[running]")
+	if i < 0 {
+		return false
+	}
+	rest := stderr[i:]
+	if j := strings.Index(rest, "\n\n"); j > 0 {
+		rest = rest[:j]
+	}
+	return strings.Contains(rest, "main.(*Rig).gateState") || strings.Contains(rest, "main.(*Rig).gateObs")
+}
+
 func panicHead(stderr string) string {
 	for _, ln := range strings.Split(stderr, "\n") {
 		if strings.HasPrefix(ln, "panic:") || strings.HasPrefix(ln, "fatal error:") {
@@ -129,6 +145,15 @@ func superviseRunRange(mode, layer string, pass []string, lo, hi, workers int, o
 				}
 				single := filepath.Join(parts, fmt.Sprintf("s%d.trace", hid))
 				stream := filepath.Join(parts, fmt.Sprintf("s%d.stream", hid))
+				if harnessRace(stderr1) {
+					// the harness itself read the engine's unlocked open-game state while the engine wrote it (Go aborts on a
+					// concurrent map iteration and write): not an engine panic; the history in flight is dropped
+					mu.Lock()
+					recs = append(recs, histRec{hid: hid, text: fmt.Sprintf("%s new seats=2 min=2 rule=default mode=ct blind=1,0,0,10,20 h=%d\n%s abort harness-read-raced-with-the-engine\n%s end\n", layer, hid, layer, layer)})
+					mu.Unlock()
+					from = hid + 1
+					continue
+				}
 				stderr2, err2 := runChild(hid, hid+1, single, stream)
 				if err2 == nil {
 					got2 := parsePart(single)
